@@ -105,6 +105,58 @@ theorem abf_accepted_safe (full mn : Int) (nv : Nat) (mf : Option (List Int)) (f
         obtain ⟨rfl, rfl⟩ := h
         exact ⟨by omega, by intro l hl; simp at hl⟩
 
+/-- whatever `historyFreq` and `outputFreq` are (either may be zero), validating the pair evaluates no remainder by zero; an accepted
+    pair is either "no history" or a history frequency that is a multiple of a non-zero output frequency; and every later
+    "write the history now?" test is defined. -/
+theorem abf_history_pair_safe (hf of_ : Int) :
+    (∀ r ∈ (abfHistoryValidate hf of_).2, r.isSome = true) ∧
+    ((abfHistoryValidate hf of_).1 = .ok → hf = 0 ∨ (of_ ≠ 0 ∧ Int.tmod hf of_ = 0)) ∧
+    (∀ it, (abfHistoryWrite hf it).isSome = true) := by
+  refine ⟨?_, ?_, ?_⟩
+  · unfold abfHistoryValidate
+    by_cases h1 : hf = 0
+    · simp [h1]
+    · by_cases h2 : of_ = 0
+      · simp [h1, h2]
+      · simp [h1, h2, safeMod]
+  · unfold abfHistoryValidate
+    by_cases h1 : hf = 0
+    · intro _; exact Or.inl h1
+    · by_cases h2 : of_ = 0
+      · simp [h1, h2]
+      · by_cases h3 : Int.tmod hf of_ = 0
+        · intro _; exact Or.inr ⟨h2, h3⟩
+        · simp [h1, h2, safeMod, h3]
+  · intro it
+    unfold abfHistoryWrite
+    by_cases h : hf > 0
+    · have : hf ≠ 0 := by omega
+      simp [safeMod, this, h]
+    · simp [h]
+
+/-- a history frequency with output switched off is rejected, not divided by -/
+theorem abf_history_rejects_zero_output (hf : Int) (h : hf ≠ 0) : abfHistoryValidate hf 0 = (.rejected, []) := by
+  simp [abfHistoryValidate, h]
+
+/-- the shared-ABF frequency: no remainder by zero, and an accepted non-zero one divides the output frequency -/
+theorem abf_shared_pair_safe (sf of_ : Int) :
+    (∀ r ∈ (abfSharedValidate sf of_).2, r.isSome = true) ∧
+    ((abfSharedValidate sf of_).1 = .ok → sf = 0 ∨ Int.tmod of_ sf = 0) := by
+  refine ⟨?_, ?_⟩
+  · unfold abfSharedValidate
+    by_cases h1 : sf = 0
+    · simp [h1]
+    · simp [h1, safeMod]
+  · unfold abfSharedValidate
+    by_cases h1 : sf = 0
+    · intro _; exact Or.inl h1
+    · by_cases h3 : Int.tmod of_ sf = 0
+      · intro _; exact Or.inr h3
+      · simp [h1, safeMod, h3]
+
+example : (abfHistoryValidate 10 5).1 = .ok ∧ (abfHistoryValidate 5 10).1 = .rejected ∧ (abfHistoryValidate 5 0).1 = .rejected ∧
+    (abfHistoryValidate 0 0).1 = .ok := by decide
+
 /-- moving restraints: once accepted, the divisor targetNumSteps of the schedules is non-zero -/
 theorem moving_accepted_safe (n it first : Int) (h : movingValidate true n = .ok) : (safeMod (it - first) n).isSome = true := by
   unfold movingValidate at h
